@@ -848,6 +848,13 @@ func c12Copy(p *Program, r *Report, m *envModel, fns []*ssa.Function) {
 							isMake = true
 						}
 					}
+					if ex, ok := st.Val.(*ssa.Extract); ok && !isMake {
+						if c, ok := ex.Tuple.(*ssa.Call); ok {
+							if callee := staticCallee(c); callee != nil && callee.Pkg == fn.Pkg && returnsFreshMapAt(callee, ex.Index, 0) {
+								isMake = true
+							}
+						}
+					}
 					r.Check(isMake, "C12.R5", fname+"|fresh-table "+m.tables[fa.Field], site, "new scope gets a map made here", "a new scope is given another scope's table: later changes on either side are visible to the other")
 				}
 			}
